@@ -354,6 +354,22 @@ func vmsaCodec(r *mc.Run) {
 			if err := set(make([]byte, rv.width)); err != nil {
 				r.Violation("vmsa/reserved-documented-size-refused/"+rv.name, "vmsa "+rv.name, fmt.Sprintf("%s of its documented size (%d zero bytes) is refused: %v", rv.name, rv.width, err), nil)
 			}
+			// the same explicit zero fill, encoded into a buffer that held other bytes before (a reused
+			// page): the encoding is a function of the value, so the range reads zero afterwards and the
+			// whole page equals the encoding of the empty value
+			{
+				m := &spb.VmcbSaveArea{}
+				m.ProtoReflect().Set(fd, protoreflect.ValueOfBytes(make([]byte, rv.width)))
+				out := bytes.Repeat([]byte{0xa5}, sev.SizeofVmsa)
+				if err := sev.PutVmsa(m, out); err == nil {
+					for i := rv.off; i < rv.off+rv.width; i++ {
+						if out[i] != 0 {
+							r.Violation("vmsa/explicit-zero-reserved-keeps-buffer-contents/"+rv.name, "vmsa "+rv.name, fmt.Sprintf("%s given as %d zero bytes and encoded into a used buffer: byte %#x reads %#x afterwards", rv.name, rv.width, i, out[i]), nil)
+							break
+						}
+					}
+				}
+			}
 			for _, n := range []int{rv.width - 1, rv.width + 1, rv.width + 8} {
 				if n > 0 && set(make([]byte, n)) == nil {
 					r.Violation("vmsa/reserved-wrong-size-accepted/"+rv.name, "vmsa "+rv.name, fmt.Sprintf("%s of %d bytes accepted (documented %d)", rv.name, n, rv.width), nil)
